@@ -56,3 +56,6 @@ def run(ctx) -> None:
     # Q: the regex is searched in the stream of this operation's own listing (nothing carried over from an earlier operation)
     from ._matchrules import stream_per_run
     stream_per_run(ctx, "C08.Q.searched-stream-is-this-operations")
+    # K7: the listing is read as text, unmodified (line ends as the platform's text mode gives them, nothing rewritten)
+    from ._matchrules import assembly_text_unmodified
+    assembly_text_unmodified(ctx, "C08.K7.listing-read-in-text-mode")
